@@ -276,7 +276,7 @@ impl Prop for C19 {
         }
     }
     fn nontrivial_rule(&self) -> &'static str {
-        "scenario = chaos seed, error rate {0,0.3,1}, latency rate {0,0.5,1}, latency range in whole ms incl. min=max and min>max, 10-100 requests; two services built from the same configuration: A driven sequentially, B by as many concurrent callers under a seeded schedule; decisions (announced through the listeners) compared position by position in first-poll order, effects of every decision checked per caller. Non-trivial: at least two injections happened in the concurrent service. Distinct = distinct event-log digest."
+        "scenario = chaos seed (incl. 0, 1, 2^32, 2^63, u64::MAX), error rate {0,0.3,1}, latency rate {0,0.5,1}, latency range in whole ms incl. min=max, min>max and ranges above one second, 10-100 requests; two services built from the same configuration: A driven sequentially, B by as many concurrent callers under a seeded schedule; decisions (announced through the listeners) compared position by position in first-poll order, effects of every decision checked per caller. Non-trivial: at least two injections happened in the concurrent service. Distinct = distinct event-log digest."
     }
     fn real_components(&self) -> Vec<&'static str> {
         vec!["tower-resilience-chaos (Chaos service, ChaosLayer builder, seeded StdRng, listeners)", "tokio::time::sleep on the paused clock"]
